@@ -13,6 +13,7 @@ Atom(n) ==
     [] n = "AS" -> Chr(AS)
     [] n = "any" -> AnyC [] n = "bol" -> Bol [] n = "eol" -> Eol
     [] n \in {"d", "D", "s", "S", "w", "W", "i", "I", "c", "C"} -> Esc(n, "")
+    [] n = "pIsX" -> Esc("p", "IsNoSuchBlock")
     [] n = "pL" -> Esc("p", "L")   [] n = "PL" -> Esc("P", "L")
     [] n = "pLu" -> Esc("p", "Lu") [] n = "PLu" -> Esc("P", "Lu")
     [] n = "pLl" -> Esc("p", "Ll") [] n = "PLl" -> Esc("P", "Ll")
